@@ -33,6 +33,7 @@ pub struct Mon {
     pub digest: String,
     pub counters: BTreeMap<String, u64>,
     pub known: Rc<crate::known::Known>,
+    pub analysis: Rc<crate::analysis::Analysis>,
 }
 
 pub fn class(code: i64) -> char {
@@ -151,6 +152,39 @@ fn hash64(s: &str) -> u64 {
     crate::rngx::str_hash(s)
 }
 
+/// PreparationError::CidStoreVerificationError
+pub const CID_STORE_VERIFICATION_CODE: i64 = 8;
+
+/// replaces every `0x<hex>` by `0xADDR` (rkyv validation errors print raw pointers)
+pub fn mask_addresses(s: &str) -> String {
+    let b = s.as_bytes();
+    let mut out = String::with_capacity(s.len());
+    let mut i = 0;
+    while i < b.len() {
+        if b[i] == b'0' && i + 1 < b.len() && b[i + 1] == b'x' {
+            let mut j = i + 2;
+            while j < b.len() && b[j].is_ascii_hexdigit() {
+                j += 1;
+            }
+            if j > i + 2 {
+                out.push_str("0xADDR");
+                i = j;
+                continue;
+            }
+        }
+        // safe: we only split at ASCII bytes
+        let ch_len = match b[i] {
+            x if x < 0x80 => 1,
+            x if x >> 5 == 0b110 => 2,
+            x if x >> 4 == 0b1110 => 3,
+            _ => 4,
+        };
+        out.push_str(&s[i..(i + ch_len).min(s.len())]);
+        i += ch_len;
+    }
+    out
+}
+
 /// (function name, argument hash, value json text) of every service-result aggregate referenced by the trace
 fn call_states(d: &InterpreterData) -> Vec<(usize, String, String, String, String)> {
     // (pos, kind, function, arg_hash, value-text)
@@ -178,7 +212,7 @@ pub fn find_call<'a>(ast: &'a Node, fname: &str) -> Option<&'a Node> {
 }
 
 impl Mon {
-    pub fn new(prop: &str, npeers: usize, known: Rc<crate::known::Known>) -> Mon {
+    pub fn new(prop: &str, npeers: usize, known: Rc<crate::known::Known>, ast: &Node) -> Mon {
         Mon {
             prop: prop.to_string(),
             viol: vec![],
@@ -194,9 +228,10 @@ impl Mon {
             digest: String::new(),
             counters: BTreeMap::new(),
             known,
+            analysis: Rc::new(crate::analysis::analyse(ast)),
         }
     }
-    fn on(&self, p: &str) -> bool {
+    pub fn on(&self, p: &str) -> bool {
         self.prop == p || self.prop == "ALL"
     }
     pub fn count(&mut self, k: &str) {
@@ -240,8 +275,14 @@ impl Mon {
     fn update_digest(&mut self, w: &World, idx: usize) {
         use sha2::{Digest, Sha256};
         let r = &w.runs[idx];
+        let parts: Vec<String> = self.digest.split(':').map(|s| s.to_string()).collect();
+        let (ds, dn, dn2) = if parts.len() == 3 { (parts[0].clone(), parts[1].clone(), parts[2].clone()) } else { (String::new(), String::new(), String::new()) };
         let mut h = Sha256::new();
-        h.update(self.digest.as_bytes());
+        h.update(ds.as_bytes());
+        let mut hn = Sha256::new();
+        hn.update(dn.as_bytes());
+        let mut hn2 = Sha256::new();
+        hn2.update(dn2.as_bytes());
         let dj = if r.out.data.is_empty() {
             serde_json::Value::Null
         } else {
@@ -250,11 +291,20 @@ impl Mon {
                 Err(e) => serde_json::Value::String(format!("undecodable: {e}")),
             }
         };
-        let msg = if class(r.out.code) == 'F' { String::from("<30000>") } else { r.out.msg.clone() };
-        h.update(
-            format!("{}|{}|{}|{}|{:?}|{}|{:?}", r.eid, r.peer, r.out.code, msg, r.out.next, dj, r.out.reqs).as_bytes(),
-        );
-        self.digest = format!("{:x}", h.finalize());
+        let msg = r.out.msg.clone();
+        let line = format!("{}|{}|{}|{}|{:?}|{}|{:?}", r.eid, r.peer, r.out.code, msg, r.out.next, dj, r.out.reqs);
+        if std::env::var("VERIF_DIGEST_DEBUG").is_ok() {
+            eprintln!("DIGEST-LINE {line}");
+        }
+        h.update(line.as_bytes());
+        // second digest with memory addresses in messages masked (strict:normalised)
+        let linen = format!("{}|{}|{}|{}|{:?}|{}|{:?}", r.eid, r.peer, r.out.code, mask_addresses(&msg), r.out.next, dj, r.out.reqs);
+        hn.update(linen.as_bytes());
+        // third digest: additionally the message of CID-store verification failures (code 8) dropped
+        let m2 = if r.out.code == CID_STORE_VERIFICATION_CODE { String::from("<cid store verification error>") } else { mask_addresses(&msg) };
+        let linen2 = format!("{}|{}|{}|{}|{:?}|{}|{:?}", r.eid, r.peer, r.out.code, m2, r.out.next, dj, r.out.reqs);
+        hn2.update(linen2.as_bytes());
+        self.digest = format!("{:x}:{:x}:{:x}", h.finalize(), hn.finalize(), hn2.finalize());
     }
 
     pub fn after_run(&mut self, w: &mut World, idx: usize) {
@@ -294,6 +344,18 @@ impl Mon {
         if honest && self.on("C04") {
             self.c04(w, idx);
         }
+        if self.on("C20") {
+            crate::monitors2::c20(self, w, idx);
+        }
+        if self.on("C21") {
+            crate::monitors2::c21(self, w, idx);
+        }
+        if self.on("C22") && !w.runs[idx].taint.contains("forged") {
+            crate::monitors2::c22(self, w, idx);
+        }
+        if self.on("C06") && !w.runs[idx].bogus.is_empty() && !w.runs[idx].taint.contains("forged") {
+            crate::monitors2::c06_bogus(self, w, idx);
+        }
         if !stored {
             return;
         }
@@ -315,6 +377,9 @@ impl Mon {
             }
             if honest && self.on("C19") {
                 self.c19_run(w, idx);
+            }
+            if honest && self.on("C12") {
+                crate::monitors2::c12(self, w, idx);
             }
         }
         let _ = peer;
@@ -800,6 +865,25 @@ impl Mon {
                         if t.peer_pk != me {
                             fail = Some(("foreign-canon".into(), format!("peer {} executed canon at {pos} attributed to {}", r.peer, t.peer_pk)));
                         }
+                    }
+                }
+            }
+        }
+        // new executed / failed call results (not known from the inputs) are results of calls addressed to the current peer
+        for (pos, st) in d.trace.iter().enumerate() {
+            let (key, cid) = match st {
+                ExecutedState::Call(CallResult::Executed(ValueRef::Scalar(c))) => (format!("S{}", c.get_inner()), c),
+                ExecutedState::Call(CallResult::Executed(ValueRef::Stream { cid, .. })) => (format!("S{}", cid.get_inner()), cid),
+                ExecutedState::Call(CallResult::Failed(c)) => (format!("F{}", c.get_inner()), c),
+                _ => continue,
+            };
+            if kin.contains(&key) {
+                continue;
+            }
+            if let Some(agg) = d.cid_info.service_result_store.get(cid) {
+                if let Some(t) = d.cid_info.tetraplet_store.get(&agg.tetraplet_cid) {
+                    if t.peer_pk != me {
+                        fail = Some(("foreign-call-executed".into(), format!("peer {} recorded a new call result at {pos} for a call addressed to {} ({})", r.peer, t.peer_pk, t.function_name)));
                     }
                 }
             }
